@@ -14,6 +14,7 @@ def run(ctx):
     progress.rule_single_computation(ctx)
     progress.rule_selector_freshness(ctx)
     progress.rule_local_selector_retired(ctx)
+    progress.rule_selector_is_next_variable(ctx)
     progress.rule_state_machine(ctx)
     progress.rule_query_scoped_decomposition(ctx)
     ctx.assume("a clause over the complement literals plus the selector excludes every subset of the current set (range) while the selector is assumed false")
